@@ -6,7 +6,7 @@ from ..model import qast
 CELLS = ['', 'a', 'b', 'ab', 'ba', '0', '1', '2', '10', '-1', '2.5', 'x|y', 'a b', 'É', "it's", 'q"t', ',', 'NR', 'None', 'a1', ' ']
 SMALL_CELLS = ['a', 'b', 'ab', '1', '2', '10', '']
 NAME_POOL = ['name', 'age', 'x1', 'Col_3', 'home_town', 'x y', 'Dist (km)', 'q"uote', "it's", 'Total%', 'k#1', 'été', 'b_c', 'zz', 'v', 'A', 'a_', 'ID', 'x-y', '[k]', 'back\\slash', 'tab\there', '', 'NR', 'NF', 'NU', 'col1', 'col2', 'col3', 'col4', 'dir\\new', 'a\\tb\\r']
-STR_LITS = ['', 'x', 'ab', ' ', 'a,b', 'a)b', '(', 'x, y', "it's", 'q"t', '[1]', 'É', '%', 'a1', '#', '=', ';', '$$', 'a$&b', 'US$', '$1', "$'", 'x\\\\', 'such as x, y', 'n,COUNT(*)', 'cols: a, *, b', ' as z', 'top 1 distinct', 'a\u2028b', 'x\x85 y', 'p\x0c#q', 'l\u2029 #r', '\x1c']
+STR_LITS = ['', 'x', 'ab', ' ', 'a,b', 'a)b', '(', 'x, y', "it's", 'q"t', '[1]', 'É', '%', 'a1', '#', '=', ';', '$$', 'a$&b', 'US$', '$1', "$'", 'x\\\\', 'such as x, y', 'n,COUNT(*)', 'cols: a, *, b', ' as z', 'top 1 distinct', 'a\u2028b', 'x\x85 y', 'p\x0c#q', 'l\u2029 #r', '\x1c', 'a\tbc', 'x\t y', '\t\t']
 LIKE_PATS = ['%', 'a%', '%b', '_', 'a_', '%a%', 'ab', '_%', '1%', '%.%', 'x|y', '']
 
 
@@ -166,6 +166,9 @@ class G(object):
         return ['arith', op, self.e_int(d - 1, nonneg), self.e_int(d - 1, nonneg)]
 
     def e_bool(self, d=2):
+        if self.rng.random() < 0.05:
+            # a true division compared with a number (the quotient itself would print differently in the two languages)
+            return ['cmp', self.rng.choice(['>', '<', '>=']), ['div', self.e_int(0), ['int', self.rng.choice([1, 2, 4, 5, 8])]], ['int', self.rng.randrange(0, 5)]]
         r = self.rng.random()
         if d <= 0 or r < 0.5:
             c = self.rng.random()
